@@ -1,6 +1,7 @@
 import FtdcVerif.Lemmas.HdrRank
 import FtdcVerif.Lemmas.Window
 import FtdcVerif.Lemmas.HdrMinMax
+import FtdcVerif.Lemmas.HdrMergeX
 /-!
 # C13 — quantiles, merges, windows and snapshots agree with an exact oracle
 
@@ -264,6 +265,89 @@ theorem merge_is_union {minV : Int} {maxV s : Nat} (hv : Valid minV maxV s) (vs 
   simp only [List.filter_append, List.length_append]
   show (0 : Int) + _ + (0 + _) = 0 + _
   push_cast; omega
+
+/-- **Merging across configurations, with the dropped count exact.**  Whatever the two
+configurations: `Merge` re-records every value `a` its argument holds as `rep a` (the lowest value
+of `a`'s range in the argument), so the receiver ends up as if the union of its own values and those
+representatives had been recorded, and the reported dropped count is exactly the number of
+representatives the receiver rejects. -/
+theorem merge_any_configuration {minH minG : Int} {maxH sH maxG sG : Nat}
+    (hvG : Valid minG maxG sG) (vs ws : List Int) (h63 : ∀ w ∈ ws, w < 2 ^ 63) :
+    merge (recordAll (new minH maxH sH) vs) (recordAll (new minG maxG sG) ws) =
+      (recordAll (new minH maxH sH) (vs ++ (accepted (new minG maxG sG) ws).map (rep (new minG maxG sG))),
+       (((accepted (new minG maxG sG) ws).countP fun a => !accepts (new minH maxH sH) (rep (new minG maxG sG) a) : Nat) : Int)) := by
+  generalize hNH : new minH maxH sH = NH
+  generalize hNG : new minG maxG sG = NG
+  have wfG : WF NG := by rw [← hNG]; exact new_wf' hvG
+  have hzH : NH.counts = List.replicate NH.countsLen 0 := by rw [← hNH]; rfl
+  have htH : NH.total = 0 := by rw [← hNH]; rfl
+  have hzG : NG.counts = List.replicate NG.countsLen 0 := by rw [← hNG]; rfl
+  have htG : NG.total = 0 := by rw [← hNG]; rfl
+  have ev := recordAll_eq NH vs NH.counts NH.total
+  have ew := recordAll_eq NG ws NG.counts NG.total
+  have eu := recordAll_eq NH (vs ++ (accepted NG ws).map (rep NG)) NH.counts NH.total
+  change recordAll NH vs = _ at ev
+  change recordAll NG ws = _ at ew
+  change recordAll NH (vs ++ (accepted NG ws).map (rep NG)) = _ at eu
+  rw [hzH, htH] at ev eu
+  rw [hzG, htG] at ew
+  -- the argument
+  have invW := (recordAll_spec ws NG (by rw [← hNG]; exact new_inv _ _ _)).1
+  have nnW := recordAll_nonneg ws NG (by intro c hc; rw [hzG] at hc; simp at hc; omega)
+  have hlenW : (cnts NG (List.replicate NG.countsLen 0) ws).length = NG.countsLen := by rw [cnts_length]; simp
+  have hlenV : (cnts NH (List.replicate NH.countsLen 0) vs).length = NH.countsLen := by rw [cnts_length]; simp
+  rw [ew] at invW nnW
+  have hA : ∀ a ∈ accepted NG ws, a < cap NG := fun a ha => mem_accepted wfG h63 ha
+  have hcnt : ∀ k, (recordAll NG ws).counts.getD k 0 =
+      (((accepted NG ws).countP fun a => idx (recordAll NG ws) a == k : Nat) : Int) := by
+    intro k; rw [ew]; exact counts_getD_accepted wfG ws k
+  have hcapeq : cap (recordAll NG ws) = cap NG := by rw [ew]; rfl
+  obtain ⟨c', e, hl, hg⟩ := mergeX_fold (g := recordAll NG ws) (by rw [ew]; exact wf_with wfG _ _)
+    (by rw [ew]; exact hlenW) (by rw [ew]; exact nnW) (by rw [ew]; exact invW.2)
+    (accepted NG ws) (by intro a ha; rw [hcapeq]; exact hA a ha) hcnt NH
+    ((recordAll NG ws).countsLen + 2) 0 (-1) 0 (cnts NH (List.replicate NH.countsLen 0) vs)
+    (0 + ((vs.filter (accepts NH)).length : Int)) 0 (st_init _ (Nat.two_pow_pos _)) hlenV (by omega)
+  have hp0 : pre (recordAll NG ws).counts 0 = 0 := by simp [pre]
+  rw [hp0] at e
+  rw [merge_eq, ev]
+  unfold iter
+  have e' : ((iterFrom ((recordAll NG ws).countsLen + 2) (recordAll NG ws) 0 (-1) 0).filter fun p => p.countAt ≠ 0).foldl mergeStep
+      (withCounts NH (cnts NH (List.replicate NH.countsLen 0) vs) (0 + ((vs.filter (accepts NH)).length : Int)), 0) = _ := e
+  show ((iterFrom ((recordAll NG ws).countsLen + 2) (recordAll NG ws) 0 (-1) 0).filter fun p => p.countAt ≠ 0).foldl mergeStep
+      (withCounts NH _ _, 0) = _
+  rw [e', eu]
+  -- `rep` and `idx` of the recorded argument are those of its configuration
+  have hrepeq : ∀ a, rep (recordAll NG ws) a = rep NG a := by intro a; rw [ew]; rfl
+  have hidxeq : ∀ a, idx (recordAll NG ws) a = idx NG a := by intro a; rw [ew]; rfl
+  have hc' : c' = cnts NH (List.replicate NH.countsLen 0) (vs ++ (accepted NG ws).map (rep NG)) := by
+    apply ext_getD
+    · rw [hl, cnts_length]; simp
+    · intro i
+      rw [hg i, cnts_getD NH vs i _ (by simp), cnts_getD NH _ i _ (by simp), List.countP_append, List.countP_map]
+      have h0 : (List.replicate NH.countsLen (0 : Int)).getD i 0 = 0 := by
+        rw [List.getD_eq_getElem?_getD]
+        cases hx : (List.replicate NH.countsLen (0 : Int))[i]? with
+        | none => rfl
+        | some a => simp [List.getElem?_replicate] at hx; simp [hx.2]
+      rw [h0]
+      have : ((accepted NG ws).countP fun a => decide (0 ≤ idx (recordAll NG ws) a) &&
+            (accepts NH (rep (recordAll NG ws) a) && (cix NH (rep (recordAll NG ws) a) == i))) =
+          (accepted NG ws).countP ((fun v => accepts NH v && (cix NH v == i)) ∘ rep NG) := by
+        apply countP_congr_on; intro a _; simp [hrepeq]
+      rw [this]; push_cast; omega
+  rw [hc']
+  show (withCounts NH _ _, _) = (withCounts NH _ _, _)
+  have ht1 : ((accepted NG ws).countP fun a => decide (0 ≤ idx (recordAll NG ws) a) && accepts NH (rep (recordAll NG ws) a)) =
+      (((accepted NG ws).map (rep NG)).filter (accepts NH)).length := by
+    rw [← List.countP_eq_length_filter, List.countP_map]
+    apply countP_congr_on; intro a _; simp [hrepeq]
+  have ht2 : ((accepted NG ws).countP fun a => decide (0 ≤ idx (recordAll NG ws) a) && !accepts NH (rep (recordAll NG ws) a)) =
+      (accepted NG ws).countP fun a => !accepts NH (rep NG a) := by
+    apply countP_congr_on; intro a _; simp [hrepeq]
+  rw [ht1, ht2]
+  congr 2
+  · simp only [List.filter_append, List.length_append]; push_cast; omega
+  · omega
 
 /-- the histogram depends on the multiset of recorded values only, not on their order -/
 theorem record_order_irrelevant {minV : Int} {maxV s : Nat} (l1 l2 : List Int) (hp : l1.Perm l2) :
